@@ -25,6 +25,14 @@
 (*       out the newest entry (or nothing iff the queue is empty); the queue *)
 (*       lock is free after every call.  Every index is handed out at most   *)
 (*       once and only if it was queued.                                     *)
+(*       "blo","bhi": tasks blo .. bhi-1 declare a resource that is held by  *)
+(*       someone else during the call: the pop hands out the newest entry    *)
+(*       that is not blocked, however many blocked entries lie above it.     *)
+(*  {"e":"handover","size":n,"slot":s,"regot":0|1,"wrote":w,"found":f,       *)
+(*   "bufsize":b,"taken":t}  the releaser of buffer s was stopped between    *)
+(*       clearing the slot flag and lowering the count, another thread got   *)
+(*       slot s and stored w packets, the releaser finished: the w packets   *)
+(*       must still be there (a slot belongs to its holder alone).           *)
 (*  {"e":"ovf","cap":C,"first":f,"t0":n,"nin":m,"ret_same":s,"fresh":h,      *)
 (*   "target":[..],"spill":[..],"hdr":0|1,"dtaken":d}                        *)
 (*       MemorySpace::add_photons: a pool buffer holding the packets f ..    *)
@@ -70,14 +78,19 @@ Range(a, b) == [i \in 1 .. (b - a) |-> a + i - 1]
 TQReset == IsEvent("qreset") /\ queue' = <<>> /\ handed' = {} /\ UNCHANGED <<size, held, bad>>
 TQ == /\ IsEvent("q")
       /\ LET isget == Rec.op \in {"get", "try_get"}
+             \* tasks blo .. bhi-1 declare a resource that someone else holds during the call
+             Blocked(x) == "blo" \in DOMAIN Rec /\ x >= Rec.blo /\ x < Rec.bhi
+             free == {k \in 1 .. Len(queue) : ~Blocked(queue[k])}
+             top == IF free = {} THEN 0 ELSE CHOOSE k \in free : \A j \in free : j <= k
              q1 == CASE Rec.op = "add" -> Append(queue, Rec.a)
                      [] Rec.op = "add_range" -> queue \o Range(Rec.a, Rec.b)
-                     [] OTHER -> IF queue = <<>> THEN queue ELSE SubSeq(queue, 1, Len(queue) - 1)
+                     [] OTHER -> IF top = 0 THEN queue
+                                 ELSE SubSeq(queue, 1, top - 1) \o SubSeq(queue, top + 1, Len(queue))
          IN /\ queue' = q1
             /\ handed' = IF isget /\ Rec.ret >= 0 THEN handed \cup {Rec.ret} ELSE handed
             /\ bad' = bad \cup Tag(Rec.queue = q1, "queue")
-                          \cup Tag(isget => IF queue = <<>> THEN Rec.ret = -1
-                                                            ELSE Rec.ret = queue[Len(queue)] /\ Rec.ret \notin handed, "taskhandout")
+                          \cup Tag(isget => IF top = 0 THEN Rec.ret = -1
+                                                      ELSE Rec.ret = queue[top] /\ Rec.ret \notin handed, "taskhandout")
                           \cup Tag(Rec.locked = 0, "queuelock")
       /\ UNCHANGED <<size, held>>
 \* ---- overflow of a photon buffer ----
@@ -93,12 +106,17 @@ TOvf == /\ IsEvent("ovf")
                                    /\ (Rec.ret_same = 1 => Rec.dtaken = 0)
                                    /\ Rec.hdr = 1, "spillbuffer")
         /\ UNCHANGED <<size, held, queue, handed>>
-Next == TReset \/ TOp \/ TStress \/ TQReset \/ TQ \/ TOvf
+\* ---- a slot that changes hands while its previous holder is still inside free_buffer ----
+THandover == /\ IsEvent("handover")
+             /\ bad' = bad \cup Tag(Rec.regot = 1 => (Rec.found = Rec.wrote /\ Rec.bufsize = Rec.wrote /\ Rec.taken = 1), "private")
+             /\ UNCHANGED <<size, held, queue, handed>>
+Next == TReset \/ TOp \/ TStress \/ TQReset \/ TQ \/ TOvf \/ THandover
 Spec == Init /\ [][Next]_vars
 ASSUME TLCSet(1, 0)
 TrackL == TLCSet(1, IF l > TLCGet(1) THEN l ELSE TLCGet(1))
 PrintMaxL == PrintT(<<"MAXL", TLCGet(1)>>)
-NoDoubleHandout == "handout" \notin bad
+\* a slot handed out belongs to the requester alone: nothing the previous holder still does may touch it
+NoDoubleHandout == bad \cap {"handout", "private"} = {}
 SlotsAreWhatIsHeld == bad \cap {"flags", "cursor"} = {}
 QuiescentCount == "count" \notin bad
 NoLostUpdate == "lostupdate" \notin bad
